@@ -7,7 +7,7 @@ CONSTANTS
 SPECIFICATION Spec
 CHECK_DEADLOCK FALSE
 INVARIANTS
-  SplitWellFormed SplitCover
+  SplitWellFormed SplitCover SplitEnumBounded
   FloatOrderModel FloatDigitsModel FloatInverse FloatMonotone
   PrefixDecode
   QueryExact SortComplete SortOrdered
